@@ -88,13 +88,31 @@ def task_verify(args):
             out["error"] = "unroll-only contract"
             return out
         v = Verifier(repo, Prover(timeout_ms=timeout_ms), reg, fi, key=qualname)
+        import signal
+
+        class _Budget(Exception):
+            pass
+
+        def _alarm(*_a):
+            raise _Budget()
+
+        limit = int(os.environ.get("NUCSVC_UNROLL_SECONDS", "420")) if arity is not None else 0
+        if limit:
+            signal.signal(signal.SIGALRM, _alarm)
+            signal.alarm(limit)
         try:
             v.verify(arity)
         except VerifError as e:
             out["error"] = f"{type(e).__name__}: {e}"
+        except _Budget:
+            out["error"] = f"Unsupported: unroll mode exceeded {limit} s at this arity (path explosion); no verdict from this run"
+            out["incomplete"] = [out["error"]]
+        finally:
+            if limit:
+                signal.alarm(0)
         out["obligations"] = [o.to_json() for o in v.obligations]
         out["paths"] = v.paths
-        out["incomplete"] = v.incomplete
+        out["incomplete"] = (out.get("incomplete") or []) + v.incomplete
         out["raised"] = len(v.raised)
         out["used_contracts"] = sorted(v.used_contracts)
         out["solver_time"] = v.prover.solver_time
